@@ -524,6 +524,7 @@ std::string op_to_json(const Op &op) {
         };
         if (op.f.alloc_k) { add("alloc_k", op.f.alloc_k); add("alloc_mode", op.f.alloc_mode); }
         if (op.f.alloc_k2) add("alloc_k2", op.f.alloc_k2);
+        if (op.f.alloc_mask) add("alloc_fail_pattern_bits", (int)op.f.alloc_mask);
         if (op.f.wr_fail_at >= 0) { add("wr_fail_at", op.f.wr_fail_at); add("wr_errno", op.f.wr_errno); }
         if (op.f.wr_chunk) add("wr_chunk", op.f.wr_chunk);
         if (op.f.rd_chunk) add("rd_chunk", op.f.rd_chunk);
